@@ -27,6 +27,21 @@ T = {
  "C19": ("formula algebra on the element-wise terms of scores.py + structural check of the shape guard",
          "quantile_score = tau*|d| below, (1-tau)*|d| above, 0 at equality, taus used unchanged; y_test is reshaped to exactly (rows of y_tau, 1) inside a try that raises ValueError; mape and bias: zero on the diagonal, degree-0 homogeneous (also for negative factors), value p resp. +p/-p for predictions p percent off, symmetric mean over samples",
          "minimiser property of the pinball loss (a theorem), numpy broadcasting of odd shapes"),
+ "C04": ("CFG dominance + def-use provenance of the collocate() call chain, order models of the temporal mask and the time window, emptiness lint",
+         "temporal mask is |dt| < max_interval (strict), computed from the NaN-filtered times with filtered-space pair rows, and the same mask filters pairs, intervals and distances; the common time window subtracts/adds max_interval on the right sides, is sound on a 9-symbol box and selects inclusively; valid = lat and lon not null, all three return paths map pairs back through the index arrays of the same masks; build/query roles and row swap-back under the same flag (direct and binned search); bin tuple packed/unpacked in one order, each offset added to its own row and equal to the searchsorted of the bound that starts its inclusive slice; emptiness tested by size; a cached index is reused only if BOTH coordinate arrays match and have the same shape",
+         "sklearn trees, xarray sel/stack on gridded input, equivalence of direct and binned search as a whole, approximate (allclose) index reuse, second truncation of the stored interval"),
+ "C06": ("table agreement with SI definitions, monomial algebra of the per-metric scale factors, CFG path rule for the de-shuffling, provenance of pair/distance order",
+         "every unit factor equals its SI value in km and to_kilometers multiplies by the matching row; per metric the radius is converted to the tree's unit (1000 resp. 1000/earth_radius) and radius factor x distance factor = 1; the build points are permuted by sigma and every return of pairs with sigma in use passes pairs[0] = sigma[pairs[0]] (row 0 only); pairs are [[build, query]...].T in query-major order and the distances are flattened in the same order; emptiness by size with a (pairs, distances) return; minkowski -> column_stack(geocentric2cart(earth_radius, lat, lon)) and haversine -> radians([lat, lon]) in double precision",
+         "sklearn BallTree/KDTree correctness, chord vs arc numerics, split_units parsing"),
+ "C13": ("def-use provenance over _create_return / collapse / expand / concat_collocations and the pseudo-group helpers, read-before-increment order, default table",
+         "the unique index array that builds the inverse map is the one that selects the data and row i is translated with map i; _rows_for_secondaries reads the running count before incrementing; collapse takes complementary pair rows, computes rows_in_bins from the reference row on every path, sizes and NaN-fills the bin matrix and scatters partner values at [row-in-bin, reference index]; default collapsers are nanmean/nanstd/count-non-NaN along the passed axis with user entries overriding; expand selects group k with pair row k unconditionally; writer and readers of the group/name convention agree; concat shifts row 0/1 by the running primary/secondary size, accumulated after use, and concatenates each group along its own dimension",
+         "xarray isel/merge/concat semantics, extra dimensions"),
+ "C14": ("API resolution against the installed numpy (helper process, imports the library only), call binding, formula algebra over an opaque integral atom, shape model of the CRH level loop, table checks",
+         "every numpy/scipy name of the integration chain exists (or is guarded by a getattr fall-back that exists); integrate_column forwards the caller's y, x, axis unchanged to the trapezoidal rule; IWV hydrostatic = -I(q(vmr), p)/g and general = I(vmr p/(R_v T), z) with the water-vapour gas constant, mixed T/z raises; CRH = IWV(vmr(q))/IWV(vmr(q_s)) with q_s level-wise from the mixed-phase saturation pressure and the level loop bounded by the size of the integration axis (shape model for ndim 1-3); pressure2height = [0, cumsum(-dp/(rho_mean g))] as float with the pressure-addressed standard atmosphere as default; ISA tables monotone and of equal length, log on both sides of the pressure branch",
+         "quadrature accuracy, convergence of the two IWV forms, numerical monotonicity"),
+ "C18": ("def-use provenance of the database permutation and window, formula algebra on 2-entry / 2-channel symbolic instances, API resolution, guard-order lint",
+         "one argsort permutation is applied to projection, x and y and the x-sorted view uses the permuted x; eigenvalue and eigenvector (column) share the index of the smallest eigenvalue, database and observation are projected alike, h^2 = 2 x2_max lambda_min; w = exp(-dy S^-1 dy^T / 2) with S^-1 = inv(s_o); mean and std equal the weighted moments (2-entry instance); weights/x share the window bounds, the x-sorted mask is i_l <= k < i_u shifted by -i_l; NaN fall-back uses existing names and its selecting test is total on an empty window; cdf = cumsum/last, quantiles = interp(taus, cdf, xs)",
+         "eigen-solver accuracy, floating-point cancellation in algebraically equal variance formulas, permutation invariance numerics"),
 }
 
 checks = []
